@@ -340,6 +340,411 @@ def batch_consumers(ctx):
     ctx.note_batch("shape-decision-consumers", cases, dis, exhaustive=False, per_consumer=stats)
 
 
+# ---------------------------------------------------------------- shape inference per node kind vs the Lean model
+
+def qexpr_of_dim(d) -> str:
+    """a real shape component as the model's QExpr: affine, or `(fdiv <affine> k)` for the floor division a slice
+    of a symbolic axis produces"""
+    from pytato.array import IndexLambda
+    import pymbolic.primitives as prim
+    if isinstance(d, IndexLambda) and isinstance(d.expr, prim.FloorDiv) \
+            and isinstance(d.expr.denominator, (int, np.integer)) and isinstance(d.expr.numerator, prim.Variable):
+        return f"(fdiv {aexpr_of_dim(d.bindings[d.expr.numerator.name])} {int(d.expr.denominator)})"
+    return aexpr_of_dim(d)
+
+
+def _sshape(dims) -> str:
+    return "(" + " ".join(aexpr_of_dim(d) for d in dims) + ")"
+
+
+_REJECT = (ValueError, TypeError, IndexError, NotImplementedError)
+
+
+def _np_ref(kind, shapes, par):
+    """NumPy's result shape for concrete operand shapes (None: NumPy refuses)"""
+    try:
+        arrs = [np.zeros(s, dtype=np.int8) for s in shapes]
+        if kind in ("bcast", "where"):
+            return tuple(np.broadcast_shapes(*shapes))
+        if kind == "transpose":
+            return np.transpose(arrs[0], par).shape
+        if kind == "roll":
+            return np.roll(arrs[0], 1, par).shape
+        if kind == "stack":
+            return np.stack(arrs, axis=par).shape
+        if kind == "concat":
+            return np.concatenate(arrs, axis=par).shape
+        if kind == "reduce":
+            return np.sum(arrs[0], axis=par).shape
+        if kind == "full":
+            return arrs[0].shape
+        if kind == "expand":
+            return np.expand_dims(arrs[0], par).shape
+        if kind == "bcastto":
+            return np.broadcast_to(arrs[0], shapes[1]).shape
+        if kind == "pad":
+            return np.pad(arrs[0], par).shape
+        if kind == "einsum":
+            # NumPy's rule per index letter (all lengths different from 1 equal), ALSO between repeated letters of
+            # one operand: there NumPy itself refuses a 1 next to a longer axis ("ii->i" on (3, 1)) while pytato
+            # defines it as the broadcast x[i, 0] -- the generalised rule is the reference
+            ins, outl = par.split("->")
+            lens: dict[str, list[int]] = {}
+            for op, shp in zip(ins.split(","), shapes):
+                if len(op) != len(shp):
+                    return None
+                for c, x in zip(op, shp):
+                    lens.setdefault(c, []).append(x)
+            res = {}
+            for c, ls in lens.items():
+                non1 = {x for x in ls if x != 1}
+                if len(non1) > 1:
+                    return None
+                res[c] = non1.pop() if non1 else 1
+            ref = tuple(res[c] for c in outl)
+            if all(len(set(ls)) == 1 for ls in lens.values()):
+                assert np.einsum(par, *arrs).shape == ref
+            return ref
+        if kind == "index":
+            return arrs[0][par].shape
+    except Exception:   # noqa: BLE001
+        return None
+    raise AssertionError(kind)
+
+
+def _sym_cases(ctx, sp):
+    """(kind, operand dims lists, parameter, thunk building the REAL node/shape, model query)"""
+    import pytato as pt
+    rng = random.Random(ctx.seed * 733 + 1616)
+    f64 = np.float64
+    n, m = sp["n"], sp["m"]
+
+    def mk(name, shape, dt=f64):
+        return pt.make_placeholder(name, shape, dt)
+
+    box1 = [(c0, cn, 0, 0) for c0 in range(-2, 4) for cn in range(-1, 3)]        # one parameter
+    box2 = [(c0, cn, cm, 0) for c0 in (0, 1, 2) for cn in (-1, 0, 1, 2) for cm in (-1, 1)]
+    pool = box1 + box2
+
+    def dim(c, form=None):
+        return build_dim(c, rng.randrange(N_FORMS) if form is None else form, sp)
+
+    nonneg = [c for c in pool if all(x >= 0 for x in c)]
+
+    def some_shape(rank, src=None):
+        return [dim(rng.choice(src or nonneg)) for _ in range(rank)]
+
+    def variant(d, c):
+        """the same length in another spelling / 1 / a symbolic 1 / something else"""
+        r = rng.random()
+        if r < 0.45:
+            return dim(c)
+        if r < 0.6:
+            return 1
+        if r < 0.7:
+            return (n + 1) - n
+        if r < 0.8:
+            return d
+        return dim(rng.choice(nonneg))
+
+    out = []
+    # ---- broadcast: EXHAUSTIVE pairs of one-axis shapes over the one-parameter box (+ the two-parameter dims)
+    pairs = [(i, a, j, b) for i, a in enumerate(pool) for j, b in enumerate(pool)]
+    if not ctx.thorough:    # quick tier: the one-parameter box exhaustively + a sample with the two-parameter dims
+        pairs = [p_ for p_ in pairs if p_[0] < len(box1) and p_[2] < len(box1)] + rng.sample(pairs, 250)
+    for i, a, j, b in pairs:
+        if True:
+            da, db = dim(a, (i + 2 * j) % N_FORMS), dim(b, (3 * i + j) % N_FORMS)
+            out.append(("bcast", [[da], [db]], None,
+                        (lambda da=da, db=db: (mk("x", (da,)) + mk("y", (db,))).shape),
+                        f"(symshape bcast ({_sshape([da])} {_sshape([db])}))"))
+    # ---- broadcast / where: several operands of different ranks
+    for _ in range(700 if ctx.thorough else 180):
+        rank = rng.randint(0, 3)
+        base_c = [rng.choice(nonneg) for _ in range(rank)]
+        base = [dim(c) for c in base_c]
+        nops = rng.choice([2, 3, 3, 4])
+        ops = []
+        for _ in range(nops):
+            r = rng.randint(0, rank)
+            ops.append([variant(base[rank - r + t], base_c[rank - r + t]) for t in range(r)])
+        if nops == 3 and rng.random() < 0.5:
+            out.append(("where", ops, None,
+                        (lambda ops=ops: pt.where(mk("c", tuple(ops[0]), np.bool_), mk("x", tuple(ops[1])),
+                                                  mk("y", tuple(ops[2]))).shape),
+                        "(symshape bcast (" + " ".join(_sshape(o) for o in ops) + "))"))
+        else:
+            from pytato.utils import get_shape_after_broadcasting
+            out.append(("bcast", ops, None,
+                        (lambda ops=ops: get_shape_after_broadcasting(
+                            [mk(f"x{k}", tuple(o)) for k, o in enumerate(ops)])),
+                        "(symshape bcast (" + " ".join(_sshape(o) for o in ops) + "))"))
+    # ---- transpose (every permutation for rank <= 3, and non-permutations), roll
+    for rank in range(0, 4):
+        for _ in range(2):
+            shp = some_shape(rank, pool)
+            perms = list(itertools.permutations(range(rank)))
+            bad = [tuple(range(rank)) + (0,), tuple([0] * rank), tuple(range(1, rank + 1))] if rank else [(0,)]
+            for perm in perms + bad:
+                out.append(("transpose", [shp], perm,
+                            (lambda shp=shp, perm=perm: pt.transpose(mk("x", tuple(shp)), perm).shape),
+                            f"(symshape transpose {_sshape(shp)} {ser.ints(perm)})"))
+            for ax in range(0, rank + 2):
+                out.append(("roll", [shp], ax,
+                            (lambda shp=shp, ax=ax: pt.roll(mk("x", tuple(shp)), 2, ax).shape),
+                            f"(symshape roll {_sshape(shp)} {ax})"))
+    # ---- stack / concatenate
+    for _ in range(500 if ctx.thorough else 140):
+        rank = rng.randint(0, 3)
+        base_c = [rng.choice(pool) for _ in range(rank)]
+        base = [dim(c) for c in base_c]
+        nops = rng.choice([1, 2, 2, 3])
+        ax = rng.randint(0, rank + 1)
+        ops = [base] + [[(dim(c) if rng.random() < 0.85 else dim(rng.choice(pool))) for c in base_c]
+                        for _ in range(nops - 1)]
+        if rng.random() < 0.1 and rank:
+            ops[-1] = ops[-1][1:]
+        out.append(("stack", ops, ax,
+                    (lambda ops=ops, ax=ax: pt.stack([mk(f"x{k}", tuple(o)) for k, o in enumerate(ops)], axis=ax).shape),
+                    "(symshape stack (" + " ".join(_sshape(o) for o in ops) + f") {ax})"))
+        # concatenate compares the other axes STRUCTURALLY: the same object, or a different spelling
+        cops = [base] + [[(d if (t == ax or rng.random() < 0.9) else dim(c)) for t, (d, c) in enumerate(zip(base, base_c))]
+                         for _ in range(nops - 1)]
+        for o in cops[1:]:
+            if ax < rank:
+                o[ax] = dim(rng.choice(pool))
+        out.append(("concat", cops, ax,
+                    (lambda cops=cops, ax=ax: pt.concatenate([mk(f"x{k}", tuple(o)) for k, o in enumerate(cops)],
+                                                             axis=ax).shape),
+                    "(symshape concat (" + " ".join(_sshape(o) for o in cops) + f") {ax})"))
+    # ---- reductions: every axis subset of shapes mixing literal and symbolic axes
+    for rank in range(0, 4):
+        for _ in range(3):
+            shp = [rng.choice([2, 3, 1, dim(rng.choice(nonneg)), (n + 1) - n]) for _ in range(rank)]
+            axsets = [tuple(c) for k in range(rank + 1) for c in itertools.combinations(range(rank), k)]
+            for ax in axsets + [None, (rank,)]:
+                w = "None" if ax is None else ser.ints(ax)
+                out.append(("reduce", [shp], ax,
+                            (lambda shp=shp, ax=ax: pt.sum(mk("x", tuple(shp)), axis=ax).shape),
+                            f"(symshape reduce {_sshape(shp)} {w})"))
+    # ---- full / zeros / ones, expand_dims, broadcast_to, pad
+    for _ in range(300 if ctx.thorough else 80):
+        rank = rng.randint(0, 3)
+        shp = [rng.choice([dim(rng.choice(pool)), rng.randint(-1, 3)]) for _ in range(rank)]
+        ctor = rng.choice([lambda s: pt.zeros(s, f64), lambda s: pt.ones(s, f64), lambda s: pt.full(s, 2.0)])
+        out.append(("full", [shp], None, (lambda shp=shp, ctor=ctor: ctor(tuple(shp)).shape),
+                    f"(symshape full {_sshape(shp)})"))
+        shp = some_shape(rank, pool)
+        k = rng.randint(1, 2)
+        axes = tuple(rng.randint(-(rank + k) - 1, rank + k) for _ in range(k))
+        out.append(("expand", [shp], axes,
+                    (lambda shp=shp, axes=axes: pt.expand_dims(mk("x", tuple(shp)), axes).shape),
+                    f"(symshape expand {_sshape(shp)} {ser.ints(axes)})"))
+        base_c = [rng.choice(nonneg) for _ in range(rank)]
+        tgt = [dim(rng.choice(nonneg)) for _ in range(rng.randint(0, 1))] + [dim(c) for c in base_c]
+        r = rng.randint(0, rank)
+        src = [variant(tgt[len(tgt) - r + t], base_c[rank - r + t]) for t in range(r)]
+        if rng.random() < 0.1:
+            src = src + [2]
+        out.append(("bcastto", [src, tgt], None,
+                    (lambda src=src, tgt=tgt: pt.broadcast_to(mk("x", tuple(src)), tuple(tgt)).shape),
+                    f"(symshape bcastto {_sshape(src)} {_sshape(tgt)})"))
+        shp = some_shape(rank, pool)
+        pw = tuple((rng.randint(0, 3), rng.randint(0, 3)) for _ in range(rank))
+        if rank:
+            out.append(("pad", [shp], pw,
+                        (lambda shp=shp, pw=pw: pt.pad(mk("x", tuple(shp)), pw).shape),
+                        f"(symshape pad {_sshape(shp)} (" + " ".join(f"({b} {a})" for b, a in pw) + "))"))
+    # ---- einsum: axis-length table incl. length-1 broadcasting and conflicting lengths
+    specs = ["ij,jk->ik", "ij,ij->ij", "ii->i", "ij,j->i", "ij,kj->ijk", "i,i->", "ij,jk,kl->il", "ij->ji", "i,j->ij",
+             "iij->j", "ij,ij,ij->i"]
+    for _ in range(600 if ctx.thorough else 160):
+        spec = rng.choice(specs)
+        ins, outl = spec.split("->")
+        ins = ins.split(",")
+        letters = sorted(set("".join(ins)))
+        lc = {c: rng.choice(nonneg) for c in letters}
+        ld = {c: dim(lc[c]) for c in letters}
+        ops = [[variant(ld[c], lc[c]) for c in op] for op in ins]
+        q = ("(symshape einsum (" + " ".join("(" + " ".join(op) + ")" for op in ins) + ") (" + " ".join(outl) + ") ("
+             + " ".join(_sshape(o) for o in ops) + "))")
+        out.append(("einsum", ops, spec,
+                    (lambda spec=spec, ops=ops: pt.einsum(spec, *[mk(f"x{k}", tuple(o)) for k, o in enumerate(ops)]).shape),
+                    q))
+    # ---- basic indexing: every (start, stop, step) spelling class on literal and symbolic axes, integer indices
+    slices = [(None, None, st) for st in (1, 2, 3, -1, -2, -3)] + [(1, None, 1), (None, -1, 1), (None, 2, 2), (0, None, -1),
+                                                                  (None, None, 0), (-2, 5, 1), (4, 0, -2)]
+    ints = [-3, -1, 0, 1, 2]
+    axes_dims = [(c, f) for c in box1 + box2[:8] for f in (0, 4)] + [((k, 0, 0, 0), 0) for k in range(0, 5)]
+    for c, f in axes_dims:
+        d = dim(c, f)
+        for sl in slices:
+            w = " ".join("None" if x is None else str(x) for x in sl)
+            out.append(("index", [[d]], (slice(*sl),),
+                        (lambda d=d, sl=sl: mk("x", (d,))[slice(*sl)].shape),
+                        f"(symshape index {_sshape([d])} ((slice {w})))"))
+        for k in ints:
+            out.append(("index", [[d]], (k,), (lambda d=d, k=k: mk("x", (d,))[k].shape),
+                        f"(symshape index {_sshape([d])} ((int {k})))"))
+    for _ in range(200 if ctx.thorough else 60):
+        rank = rng.randint(1, 3)
+        shp = [rng.choice([dim(rng.choice(nonneg)), rng.randint(0, 4)]) for _ in range(rank)]
+        ix = tuple(rng.choice([slice(*rng.choice(slices[:8])), rng.choice(ints), slice(None, None, 1)]) for _ in range(rank))
+        w = " ".join(f"(int {i})" if isinstance(i, int) else
+                     "(slice " + " ".join("None" if x is None else str(x) for x in (i.start, i.stop, i.step)) + ")" for i in ix)
+        out.append(("index", [shp], ix, (lambda shp=shp, ix=ix: mk("x", tuple(shp))[ix].shape),
+                    f"(symshape index {_sshape(shp)} ({w}))"))
+    return out
+
+
+_DIMFUN: dict[int, object] = {}
+_DIMKEEP: list = []
+
+
+def _dimfun(d):
+    """sizes -> int for a shape component, from 3 (+1 checking) evaluations of the real expression: affine
+    components are determined by their values on {0, e_n, e_m}; a floor division (slice of a symbolic axis) by its
+    affine numerator"""
+    if isinstance(d, (int, np.integer)):
+        return lambda sizes, c=int(d): c
+    f = _DIMFUN.get(id(d))
+    if f is not None:
+        return f
+    from pytato.array import IndexLambda
+    import pymbolic.primitives as prim
+    if isinstance(d, IndexLambda) and isinstance(d.expr, prim.FloorDiv) and isinstance(d.expr.numerator, prim.Variable):
+        inner = _dimfun(d.bindings[d.expr.numerator.name])
+        k = int(d.expr.denominator)
+        f = lambda sizes, inner=inner, k=k: inner(sizes) // k     # noqa: E731
+    else:
+        z = {"n": 0, "m": 0, "k": 0}
+        c0 = eval_dim(d, z)
+        cn = eval_dim(d, dict(z, n=1)) - c0
+        cm = eval_dim(d, dict(z, m=1)) - c0
+        ck = eval_dim(d, dict(z, k=1)) - c0
+        assert eval_dim(d, {"n": 2, "m": 3, "k": 1}) == c0 + 2 * cn + 3 * cm + ck, "non-affine shape component"
+        f = lambda sizes, c0=c0, cn=cn, cm=cm, ck=ck: c0 + cn * sizes["n"] + cm * sizes["m"] + ck * sizes["k"]   # noqa: E731
+    _DIMFUN[id(d)] = f
+    _DIMKEEP.append(d)
+    return f
+
+
+def _concrete(dims, sizes):
+    return tuple(_dimfun(d)(sizes) for d in dims)
+
+
+def _dstr(d) -> str:
+    """compact text of a dim: a literal, or its serialised structure"""
+    if isinstance(d, (int, np.integer)):
+        return str(int(d))
+    try:
+        return qexpr_of_dim(d)
+    except ser.SerError:
+        return str(d)[:80]
+
+
+def batch_symshape(ctx):
+    """SHAPE INFERENCE, kind by kind: the dims the real API infers (normalised affine forms; floor divisions for
+    slices of symbolic axes) must be the Lean model's (`Pt.Sym.*`, proved sound for every valuation in
+    PtProofs/C16Shape.lean), accept/reject classes equal; every accepted result is also evaluated at grid
+    valuations against NumPy's shape on the concretised operands"""
+    import pytato as pt
+    sp = {p: pt.make_size_param(p) for p in PARAMS}
+    cases = _sym_cases(ctx, sp)
+    queries, recs = [], []
+    skipped_structural = 0
+    for kind, ops, par, thunk, mq in cases:
+        if kind != "full" and any(isinstance(d, int) and d < 0 for o in ops for d in o):
+            continue        # not an operand: make_placeholder refuses a negative literal length
+        try:
+            shape = thunk()
+            err = None
+        except _REJECT as e:
+            shape, err = None, f"{type(e).__name__}: {str(e)[:90]}"
+        except Exception as e:   # noqa: BLE001
+            shape, err = None, f"UNEXPECTED {type(e).__name__}: {str(e)[:90]}"
+        if kind == "concat" and len(ops) > 1:
+            # structural comparison in the real code: only spellings the serialisation distinguishes faithfully
+            ax = par
+            def exc(o):
+                return [d for t, d in enumerate(o) if t != ax]
+            unfaithful = False
+            for o in ops[1:]:
+                a, b = exc(o), exc(ops[0])
+                if len(a) == len(b):
+                    for x, y in zip(a, b):
+                        same_real = (x is y) or (isinstance(x, int) and isinstance(y, int) and x == y) or \
+                            (not isinstance(x, int) and not isinstance(y, int) and bool(x == y))
+                        if same_real != (aexpr_of_dim(x) == aexpr_of_dim(y)):
+                            unfaithful = True
+            if unfaithful:
+                skipped_structural += 1
+                continue
+        rq = None
+        if shape is not None:
+            try:
+                rq = "(symshape norm (" + " ".join(qexpr_of_dim(d) for d in shape) + "))"
+            except ser.SerError as e:
+                ctx.broken.append(f"serialiser:symshape:{kind}:{e}")
+                continue
+        recs.append((kind, ops, par, shape, err, len(queries), rq is not None))
+        queries.append(mq)
+        if rq is not None:
+            queries.append(rq)
+    ans = common.driver_query_parallel(queries)
+    grid = [{"n": a, "m": b, "k": 1} for a, b in [(0, 0), (1, 0), (0, 1), (1, 1), (2, 1), (1, 2), (2, 3), (3, 2), (5, 4), (4, 7)]]
+    dis = 0
+    stats: dict[str, dict[str, int]] = {}
+    for kind, ops, par, shape, err, qi, has_real in recs:
+        st = stats.setdefault(kind, {"accepted": 0, "rejected": 0})
+        st["accepted" if shape is not None else "rejected"] += 1
+        model = ans[qi]
+        real_n = ans[qi + 1] if has_real else None
+        m_acc = model.startswith("ok (")
+        desc = {"kind": kind, "operands": [[_dstr(d) for d in o] for o in ops], "param": repr(par),
+                "real": None if shape is None else [_dstr(d) for d in shape], "real_error": err,
+                "real_normalised": real_n, "model": model}
+        if err is not None and err.startswith("UNEXPECTED"):
+            dis += 1
+            ctx.violation(f"symshape:{kind}:unexpected-exception", f"{kind} on {desc['operands']} ({par!r}): {err}", desc)
+            continue
+        agree = (m_acc == (shape is not None)) and (shape is None or model == real_n)
+        if agree and shape is None and kind == "index":
+            # refusal classes: the model names why the real code refuses
+            want = {"refuse:zero-step": "ValueError", "refuse:explicit-bound-on-symbolic-axis": "NotImplementedError",
+                    "refuse:sign-unknown": "NotImplementedError", "refuse:int-out-of-bounds": "IndexError"}.get(model[3:])
+            if want is not None and not err.startswith(want):
+                agree = False
+        # NumPy at grid valuations (admissible ones: every operand length non-negative)
+        failing = None
+        for sizes in (grid if shape is not None else []):
+            cops = [_concrete(o, sizes) for o in ops]
+            if any(x < 0 for o in cops for x in o):
+                continue
+            ref = _np_ref(kind, cops, par)
+            got = _concrete(shape, sizes)
+            if ref is None or tuple(got) != tuple(ref):
+                failing = (sizes, cops, got, ref)
+                break
+        if failing is not None:
+            dis += 1
+            sizes, cops, got, ref = failing
+            ctx.violation(f"symshape:{kind}:inferred-vs-numpy",
+                          f"{kind} on operand shapes {desc['operands']} ({par!r}) infers {desc['real']}, which at {sizes} "
+                          f"(operands {cops}) is {got}; NumPy: {ref if ref is not None else 'refuses'}",
+                          dict(desc, sizes=sizes, concrete_operands=cops, observed=got, numpy=ref))
+        elif not agree:
+            dis += 1
+            ctx.broken.append(f"correspondence:symshape:{kind}:{desc['operands']}:{par!r}:real={desc['real'] or err}:model={model}")
+    ctx.note_batch("symbolic-shape-inference-per-kind", len(recs), dis, exhaustive=False,
+                   per_kind=stats, skipped_concat_unfaithful_spelling=skipped_structural,
+                   note="broadcast: exhaustive pairs over the one-parameter coefficient box [-2,3]x[-1,2] (+ two-parameter "
+                        "dims) in varying spellings; other kinds seeded over the same dims incl. degenerate spellings; "
+                        "transposes: all permutations of rank <= 3; reductions: all axis subsets; indexing: every "
+                        "slice class x every axis dim of the box")
+    return dis
+
+
 # ---------------------------------------------------------------- symbolic programs
 
 def sym_programs(ctx, count):
